@@ -91,9 +91,25 @@ def sample_of(rec):
             "emitted_bytes": rec["emit"]["len"] if rec["emit"]["present"] else 0, "requires_run": rec["emit"]["run"]["requires"]}
 
 
+def final_coverage(r, out_file):
+    """TLC prints a coverage report every minute and one at the end; r.coverage adds them up. On a loaded machine a run
+    takes longer than a minute: count the last report only (action -> (distinct, total))."""
+    import re
+    last = {}
+    try:
+        for line in open(out_file, encoding="utf-8", errors="replace"):
+            m = re.match(r"<(\w+) line \d+, col \d+ to line \d+, col \d+ of module \w+>: (\d+):(\d+)", line)
+            if m:
+                last[m.group(1)] = (int(m.group(2)), int(m.group(3)))
+    except OSError:
+        return r.coverage
+    return last or r.coverage
+
+
 def spec_model(wd, ev):
-    r = vlib.tlc("MC_Driver", wd=wd, timeout=900)
+    r = vlib.tlc("MC_Driver", wd=wd, timeout=900, workers=4, out_file=os.path.join(wd, "tlc-MC_Driver.out"))
     vlib.require_tlc_ok(r, "SyltDriver generator model")
+    r.coverage = final_coverage(r, os.path.join(wd, "tlc-MC_Driver.out"))
     for act in SPEC_ACTIONS:
         if r.coverage.get(act, (0, 0))[1] == 0:
             vlib.tool_error("vacuity: spec action %s never taken" % act)
@@ -148,6 +164,7 @@ def validate(wd, name, trace, nv, ns, n, workers=None):
                  out_file=os.path.join(wd, "tlc-" + name + ".out"))
     vlib.require_tlc_ok(r, "Trace_Driver/" + name)
     rejects = {p["rec"]: p for (_, p) in r.records}   # ENABLED re-evaluates PrintT: dedupe
+    r.coverage = final_coverage(r, os.path.join(wd, "tlc-" + name + ".out"))
     cov = {a: r.coverage.get(a, (0, 0))[1] for a in ("TraceInit", "TraceStep", "TraceAccept", "TraceReject")}
     if cov["TraceInit"] != n or cov["TraceAccept"] + cov["TraceReject"] != n or cov["TraceReject"] != len(rejects):
         vlib.tool_error("vacuity: Trace_Driver/%s did not take every record to a verdict (%r, %d records, %d REJECT lines)" % (
@@ -448,7 +465,7 @@ def run(ctx):
            exhaustive=True,
            trace_validation={"records": len(recs), "rejected": len(rejects), "tlc_states": r.distinct, "tlc_wall_s": round(r.wall_s, 1),
                              "actions": {k: v[1] for k, v in r.coverage.items() if k.startswith("Trace")}},
-           recording_guards=guards,
+           recording_guards=guards, runs_repeated_after_a_timeout=sum(1 for x in recs if x.get("repeated")),
            exit_codes={str(k): sum(1 for x in recs if x["exit"] == k) for k in sorted({x["exit"] for x in recs})},
            unwritable_stdout_status_left_open={"records": len(open_status), "exit_0": sum(1 for x in open_status if x["exit"] == 0),
                                                "strict": STRICT_STDOUT == "1"},
